@@ -284,6 +284,32 @@ def rule_iter(rep, d):
     c12.rule_step(_Rename(rep, "C11.iter"), d, classes)
 
 
+def rule_flags(rep):
+    """the flag storage of xoptional_vector is xdynamic_bitset<std::size_t>: its resize must keep the block buffer, the size and the unused bits in
+    step, otherwise flags of elements created by a later resize come back present (decided by C03's rules on that instantiation)"""
+    from . import c03
+    rep.rule("C11.flags", "the flag bitset (xdynamic_bitset<std::size_t>) keeps block count = ceil(size/64), clears the bits beyond size() at every exit of its "
+                          "size-changing members, and resize(n, true) fills the old last block: newly created elements get exactly the requested flag")
+    d2 = cj.dump(c03.driver(["std::uint64_t"]), "xtl::")
+    rep.cmd(d2.cmd)
+    insts = c03.gather(d2)
+    inst = insts.get("unsigned long")
+    if inst is None:
+        raise cj.AnalysisBroken("xdynamic_bitset<std::size_t> not instantiated")
+    sub = Report("C11", rep.tier, rep.level, "")
+    flows = c03.shift_analysis(sub, inst)
+    before = len(rep.instances)
+    c03.rule_blocks(rep, inst, "C11.flags")
+    c03.rule_grow(rep, inst, "C11.flags")
+    keep = {"resize", "push_back", "pop_back", "clear", "assign", "xdynamic_bitset", "set", "reset", "flip"}
+    tmp = Report("C11", rep.tier, rep.level, "")
+    c03.rule_canon(tmp, inst, flows, "C11.flags")
+    for i in tmp.instances:
+        if any(("::%s(" % k) in i["function"] for k in keep):
+            rep.instances.append(i)
+    rep.unit("flag storage xdynamic_bitset<unsigned long>: %d instances from C03's block/size rules" % (len(rep.instances) - before))
+
+
 def run(tier):
     rep = Report("C11", tier, "other",
                  "Sibling-storage pairing rule over every member/constructor pattern of xoptional_sequence/vector/array and "
@@ -299,4 +325,5 @@ def run(tier):
     rule_iter(rep, d)
     rule_default_ctor(rep, d)
     rule_init(rep)
+    rule_flags(rep)
     return rep
